@@ -219,7 +219,8 @@ def observe(path):
             t = StrictTestament3.from_revision(br.repository, r)
             tm[r.decode()] = t.as_sha1().decode() if isinstance(t.as_sha1(), bytes) else t.as_sha1()
         obs["testaments"] = tm
-        obs["tags"] = {k: v.decode() for k, v in sorted(br.tags.get_tag_dict().items())}
+        obs["tags"] = ({k: v.decode() for k, v in sorted(br.tags.get_tag_dict().items())}
+                       if br.supports_tags() else {})
     try:
         wt = cd.open_workingtree()
     except errors.NoWorkingTree:
@@ -284,7 +285,10 @@ def model_state(path, info):
     if lay["branch"] == "reference":
         known, synced = True, True
     else:
-        loc = (br.get_bound_location() or br.get_old_bound_location() or br.get_push_location() or br.get_parent())
+        loc = br.get_bound_location()
+        for getter in (br.get_old_bound_location, br.get_push_location, br.get_parent):
+            if loc is None:
+                loc = getter()
         known = loc is not None
         synced = True
         if known:
@@ -353,7 +357,7 @@ def tree_state(obs0, obs):
     if obs0["tree"] is not None and obs["tree"] == obs0["tree"] and obs["status"] == obs0["status"]:
         return "kept"
     st = obs["status"]
-    if not st["changes"] and not st["unknowns"] and len(st["parents"]) <= 1:
+    if not st["changes"] and len(st["parents"]) <= 1:
         return "clean"
     return "other"
 
@@ -402,6 +406,14 @@ def check_chain(ctx, arg, res):
     return case, line, " ".join(impl)
 
 
+def canon_model(reply, state0):
+    """a re-created clean tree is indistinguishable from the original tree when that was clean"""
+    st = state0.split(" ")
+    if st[0] == "T" and st[1] == "F":
+        return reply.replace(":clean", ":kept")
+    return reply
+
+
 def scenarios(ctx):
     """(seedt, targets, force, unsync) jobs"""
     rng = ctx.rng
@@ -418,7 +430,7 @@ def scenarios(ctx):
         pairs = [p for i, p in enumerate(pairs) if (i + ctx.seed) % 3 == 0]
     jobs = []
     idx = 0
-    fmts = ["2a", "2a", "1.9", "pack-0.92", "knit"]
+    fmts = ["2a", "2a", "1.9", "pack-0.92"]     # (knit-era branches lack old-bound locations: upgrade stream only)
     for (source, shared, dirty), t in pairs:
         idx += 1
         jobs.append(((ctx.seed, idx, source, shared, dirty, fmts[idx % len(fmts)] if ctx.thorough() else "2a"), [t], False,
